@@ -622,6 +622,119 @@ type c16ExpiryOut struct {
 	Conclusive   bool      `json:"conclusive"`
 	Why          string    `json:"why"`
 	Violations   []*c16Rec `json:"violations"`
+	StallMs      int64     `json:"sampler_max_stall_ms"`
+	IdleFirst    *c16IdleFirstOut `json:"idle_first"`
+}
+
+// second scenario of the expiry family: the map stays EMPTY for longer than limiter_expiration (no traffic
+// since Start), then two keys start arriving continuously.  The map generation has to follow the wall clock
+// while the map is empty; otherwise the first limiters are stamped with a stale generation and forgotten at the
+// next maintenance round although they are in use.
+type c16IdleFirstOut struct {
+	ExpirationMs   int64     `json:"expiration_ms"`
+	IdleMs         int64     `json:"idle_ms"`
+	BusyMs         int64     `json:"busy_ms"`
+	Hits           int       `json:"hits"`
+	MaxGenGapMs    int64     `json:"max_gen_gap_ms"`
+	GensWhileBusy  int       `json:"generation_changes_while_busy"`
+	BusyAfterGenMs int64     `json:"busy_after_last_generation_change_ms"`
+	StallMs        int64     `json:"sampler_max_stall_ms"`
+	Passed         []int64   `json:"passed"`
+	Violations     []*c16Rec `json:"violations"`
+}
+
+func c16ExpiryIdleFirst() *c16IdleFirstOut {
+	const expiration = 4 * time.Second
+	idleFor := expiration + maintenanceInterval + 200*time.Millisecond
+	busyFor := 2*maintenanceInterval + 400*time.Millisecond
+	c := &c16Case{S: "expiry", C: 2, K: 0, D: 0, L: []int64{2, 3}}
+	r := &c16Render{interval: time.Minute, intervalStr: "1m", level: []string{"info"}, useRules: true,
+		expiration: "4s", phaseNow: []time.Duration{30 * time.Second}, phaseTs: []time.Duration{30 * time.Second}}
+	env := &c16Env{
+		name: fmt.Sprintf("verif_c16_idlefirst_%d", time.Now().UnixNano()),
+		ctl:  metric.NewCtl("verif_c16_idlefirst", prometheus.NewRegistry(), 0, 0),
+		lg:   zap.NewNop().Sugar(),
+	}
+	tgt := c16NewPlugTarget(env, c, r)
+	defer tgt.close()
+	lm := tgt.p.limitersMap
+	t0 := r.at(0, 0, r.phaseNow[0])
+	res := &c16IdleFirstOut{ExpirationMs: expiration.Milliseconds(), Passed: make([]int64, 2)}
+	or := c16NewOracle(c)
+	got := map[int][]int{}
+	failed := map[int]bool{}
+
+	lm.mu.RLock()
+	lastGen := lm.curGen
+	lm.mu.RUnlock()
+	start := time.Now()
+	lastLoop := start
+	var busyStart, lastChange time.Time
+	for {
+		nowT := time.Now()
+		if st := nowT.Sub(lastLoop).Milliseconds(); st > res.StallMs {
+			res.StallMs = st
+		}
+		lastLoop = nowT
+		busy := nowT.Sub(start) >= idleFor
+		if busy && busyStart.IsZero() {
+			busyStart = nowT
+		}
+		if busy && nowT.Sub(busyStart) >= busyFor {
+			break
+		}
+		lm.mu.RLock()
+		g := lm.curGen
+		lm.mu.RUnlock()
+		if g != lastGen {
+			if gap := (g - lastGen) / 1000; gap > res.MaxGenGapMs {
+				res.MaxGenGapMs = gap
+			}
+			lastGen = g
+			if busy && res.Hits > 0 {
+				res.GensWhileBusy++
+				lastChange = nowT
+			}
+		}
+		if busy {
+			for k := 1; k <= 2; k++ {
+				b, _, _ := or.charge(k, 0, 0)
+				must, why := or.must(k, b, 1, 0)
+				ev := r.event(0, k, t0, 1)
+				ok := tgt.decide(k, ev, t0, t0)
+				insaneJSON.Release(ev.Root)
+				res.Hits++
+				g01 := 0
+				if ok {
+					g01 = 1
+					res.Passed[k-1]++
+				}
+				if len(got[k]) < 40 {
+					got[k] = append(got[k], g01)
+				}
+				if !failed[k] && ((must == c16Reject && ok) || (must == c16Pass && !ok)) {
+					failed[k] = true
+					kind := "over_limit"
+					if !ok {
+						kind = "early_reject"
+					}
+					res.Violations = append(res.Violations, &c16Rec{Kind: kind, Path: "plugin_expiry_idle_first", Slice: "expiry", LKind: limitKindCount,
+						Buckets: c.C, Step: res.Hits - 1, Must: must, Got: got[k],
+						Detail: fmt.Sprintf("limiters map empty for %d ms (limiter_expiration=%s), then key %d hit every ~5ms, all events timed in one bucket: %s; %d ms after its first event",
+							idleFor.Milliseconds(), expiration, k, why, nowT.Sub(busyStart).Milliseconds()),
+						Variant: r.variant(), Case: c})
+				}
+				or.record(k, b, 1, 0, ok)
+			}
+		}
+		time.Sleep(5 * time.Millisecond)
+	}
+	res.IdleMs = idleFor.Milliseconds()
+	res.BusyMs = time.Since(busyStart).Milliseconds()
+	if !lastChange.IsZero() {
+		res.BusyAfterGenMs = time.Since(lastChange).Milliseconds()
+	}
+	return res
 }
 
 func TestVerifC16Expiry(t *testing.T) {
@@ -666,10 +779,27 @@ func TestVerifC16Expiry(t *testing.T) {
 		insaneJSON.Release(ev.Root)
 	}
 
+	idleFirstCh := make(chan *c16IdleFirstOut, 1)
+	go func() { idleFirstCh <- c16ExpiryIdleFirst() }()
+	var idleFirst *c16IdleFirstOut
+
 	var lastGen, firstGen int64
 	prev := map[string]*limiterWithGen{}
 	start := time.Now()
-	for time.Since(start) < runFor {
+	lastLoop := start
+	// the busy keys of this map are hit until the idle-first scenario is over too: this map is never empty, so
+	// its generations tell whether maintenance goroutines were scheduled in time during that scenario
+	for time.Since(start) < runFor || idleFirst == nil {
+		if idleFirst == nil {
+			select {
+			case idleFirst = <-idleFirstCh:
+			default:
+			}
+		}
+		if st := time.Since(lastLoop).Milliseconds(); st > res.StallMs {
+			res.StallMs = st
+		}
+		lastLoop = time.Now()
 		lm.mu.RLock()
 		g := lm.curGen
 		for name, l := range lm.lims {
@@ -723,7 +853,20 @@ func TestVerifC16Expiry(t *testing.T) {
 	res.IdleEvicted = idleFilled == 3 && tgt.decide(3, ev, t0, t0)
 	insaneJSON.Release(ev.Root)
 
+	res.IdleFirst = idleFirst
+	stall := res.StallMs
+	if idleFirst.StallMs > stall {
+		stall = idleFirst.StallMs
+	}
+	// idle-first verdicts count only if its own generations advanced in time (exact guard, as above), or -- when they
+	// did not -- if that cannot be blamed on scheduling: the never-empty map's maintenance ran on time (gaps < 2 s
+	// against a 4 s expiration) and neither sampler was starved
+	idleFirstSound := idleFirst.MaxGenGapMs < idleFirst.ExpirationMs || (res.MaxGenGapMs < 2000 && stall < 500)
 	switch {
+	case !idleFirstSound:
+		res.Why = "idle-first scenario: map generation stalled and scheduling delays cannot be excluded"
+	case idleFirst.GensWhileBusy < 1 || idleFirst.BusyAfterGenMs < 200:
+		res.Why = "idle-first scenario: no maintenance round observed while the keys were busy"
 	case res.MaxGenGapMs >= expiration.Milliseconds():
 		res.Why = "maintenance stalled for a whole limiter_expiration: the keys were idle from the code's point of view"
 	case res.SpanMs < (expiration + maintenanceInterval/2).Milliseconds():
@@ -732,6 +875,7 @@ func TestVerifC16Expiry(t *testing.T) {
 		res.Why = "the idle key was not forgotten: expiry was not exercised"
 	default:
 		res.Conclusive = true
+		res.Violations = append(res.Violations, idleFirst.Violations...)
 	}
 	b, _ := json.Marshal(res)
 	if err := os.WriteFile(out, b, 0o644); err != nil {
@@ -910,6 +1054,182 @@ func TestVerifC16Concurrent(t *testing.T) {
 			}
 		}
 	}
+	b, _ := json.Marshal(res)
+	if err := os.WriteFile(out, b, 0o644); err != nil {
+		t.Fatal(err)
+	}
+}
+
+// ---------------------------------------------------------------------------------------------
+// rules family: "the limit selected by the first matching rule".  Every case exported by TLC from SpecRule
+// (two rules with 0..3 conditions over three fields, an event with each field absent / value 1 / value 2, and the
+// index of the rule that must govern it) is replayed through the real Plugin.Start with the rules in the config.
+// Go iterates the conditions map in random order, so every rule list is started c16RuleInstances times (fresh
+// instance, conditions inserted in a different order each time).  Rule 1 has limit 1, rule 2 limit 2, the default
+// rule limit 3; c16RuleSends identical events of a fresh throttle key in one frozen bucket are sent: the number
+// that passes IS the limit that governed them.
+
+const (
+	c16RuleInstances = 8
+	c16RuleSends     = 4
+)
+
+type c16RuleCase struct {
+	R    [][]int `json:"r"` // per rule, per field: 0 no condition, 1 / 2 required value
+	E    []int   `json:"e"` // per field: 0 absent, 1 / 2 value
+	Want int     `json:"want"`
+}
+
+type c16RulesOut struct {
+	Cases      int       `json:"cases"`
+	RuleLists  int       `json:"rule_lists"`
+	Instances  int       `json:"instances"`
+	Decisions  int       `json:"decisions"`
+	MultiCond  int       `json:"cases_governed_by_rule_with_2plus_conditions"`
+	Wrong      int       `json:"wrong"`
+	Violations []*c16Rec `json:"violations"`
+}
+
+var c16RuleFields = []string{"fa", "fb", "fc"} // index order = sorted order
+
+func TestVerifC16Rules(t *testing.T) {
+	in, out := os.Getenv("VERIF_RULES_CASES"), os.Getenv("VERIF_RULES_OUT")
+	if in == "" || out == "" {
+		t.Skip("VERIF_RULES_CASES / VERIF_RULES_OUT not set")
+	}
+	f, err := os.Open(in)
+	if err != nil {
+		t.Fatal(err)
+	}
+	defer f.Close()
+	groups := map[string][]*c16RuleCase{}
+	var order []string
+	res := &c16RulesOut{}
+	sc := bufio.NewScanner(f)
+	for sc.Scan() {
+		c := &c16RuleCase{}
+		if err := json.Unmarshal(sc.Bytes(), c); err != nil || len(c.R) != 2 || len(c.E) != 3 || c.Want < 1 || c.Want > 3 {
+			t.Fatalf("bad rule case %q: %v", sc.Text(), err)
+		}
+		k := fmt.Sprint(c.R)
+		if _, has := groups[k]; !has {
+			order = append(order, k)
+		}
+		groups[k] = append(groups[k], c)
+		res.Cases++
+	}
+	res.RuleLists = len(order)
+	t0 := c16Base.Add(30 * time.Minute)
+	tsStr := t0.UTC().Format(time.RFC3339Nano)
+	limits := []int64{1, 2, 3}
+
+	nw := runtime.GOMAXPROCS(0)
+	var wg sync.WaitGroup
+	var mu sync.Mutex
+	for wi := 0; wi < nw; wi++ {
+		wg.Add(1)
+		go func(wi int) {
+			defer wg.Done()
+			env := &c16Env{
+				name: fmt.Sprintf("verif_c16_rules_%d", wi),
+				ctl:  metric.NewCtl(fmt.Sprintf("verif_c16_rules_%d", wi), prometheus.NewRegistry(), 0, 0),
+				lg:   zap.NewNop().Sugar(),
+			}
+			var mine []*c16Rec
+			instances, decisions, multi, wrong := 0, 0, 0, 0
+			for gi := wi; gi < len(order); gi += nw {
+				cases := groups[order[gi]]
+				for inst := 0; inst < c16RuleInstances; inst++ {
+					conf := &Config{ThrottleField: "k8s_pod", TimeField: "time", DefaultLimit: limits[2], BucketsCount: 1,
+						BucketInterval: "1h", LimiterExpiration: "100000h"}
+					for ri := 0; ri < 2; ri++ {
+						m := map[string]string{}
+						for x := 0; x < 3; x++ { // written order differs per instance
+							fi := (x*(1+inst%2) + inst) % 3
+							if v := cases[0].R[ri][fi]; v != 0 {
+								m[c16RuleFields[fi]] = "v" + strconv.Itoa(v)
+							}
+						}
+						conf.Rules = append(conf.Rules, RuleConfig{Limit: limits[ri], LimitKind: limitKindCount, Conditions: m})
+					}
+					test.NewConfig(conf, nil)
+					limitersMu.Lock()
+					delete(limiters, env.name)
+					limitersMu.Unlock()
+					p := &Plugin{}
+					p.Start(conf, &pipeline.ActionPluginParams{
+						PluginDefaultParams: pipeline.PluginDefaultParams{PipelineName: env.name, PipelineSettings: &pipeline.Settings{}, MetricCtl: env.ctl},
+						Logger:              env.lg,
+					})
+					p.limitersMap.setNowFn(func() time.Time { return t0 }, true)
+					instances++
+					for ci, c := range cases {
+						js := `{"time":"` + tsStr + `","k8s_pod":"e` + strconv.Itoa(ci) + `"`
+						for fi, v := range c.E {
+							if v != 0 {
+								js += `,"` + c16RuleFields[fi] + `":"v` + strconv.Itoa(v) + `"`
+							}
+						}
+						js += "}"
+						passed := 0
+						for n := 0; n < c16RuleSends; n++ {
+							root, err := insaneJSON.DecodeString(js)
+							if err != nil {
+								panic(err)
+							}
+							if p.Do(&pipeline.Event{Root: root, Size: 1}) == pipeline.ActionPass {
+								passed++
+							}
+							insaneJSON.Release(root)
+							decisions++
+						}
+						nc := 0
+						if c.Want <= 2 {
+							for _, v := range c.R[c.Want-1] {
+								if v != 0 {
+									nc++
+								}
+							}
+						}
+						if nc >= 2 && inst == 0 {
+							multi++
+						}
+						if want := int(limits[c.Want-1]); passed != want {
+							wrong++
+							if len(mine) < 5 {
+								kind := "over_limit"
+								if passed < want {
+									kind = "early_reject"
+								}
+								cj, _ := json.Marshal(c)
+								mine = append(mine, &c16Rec{Kind: kind, Path: "plugin_rules", Slice: "rules", LKind: limitKindCount, Buckets: 1,
+									Step: inst, Must: -1,
+									Detail: fmt.Sprintf("rules/event %s: the first matching rule is #%d (limit %d), but %d of %d identical events of one key in one bucket passed (instance %d of %d of this config)",
+										cj, c.Want, want, passed, c16RuleSends, inst+1, c16RuleInstances),
+									Case: &c16Case{S: "rules"}})
+							}
+						}
+					}
+					p.Stop()
+				}
+			}
+			limitersMu.Lock()
+			delete(limiters, env.name)
+			limitersMu.Unlock()
+			mu.Lock()
+			res.Instances += instances
+			res.Decisions += decisions
+			res.MultiCond += multi
+			res.Wrong += wrong
+			for _, r := range mine {
+				if len(res.Violations) < 12 {
+					res.Violations = append(res.Violations, r)
+				}
+			}
+			mu.Unlock()
+		}(wi)
+	}
+	wg.Wait()
 	b, _ := json.Marshal(res)
 	if err := os.WriteFile(out, b, 0o644); err != nil {
 		t.Fatal(err)
